@@ -79,13 +79,26 @@ def gen_case(rng, tier, g):
     if rng.random() < 0.15 and len(hdr) > 1:
         hdr = hdr[:-1]             # load a subset of the columns
     big = rng.random() < 0.03
+    wide = (not big) and rng.random() < 0.02
     if big:
         # loads long enough to cross any internal batching boundary; the
         # failure indexes are then sampled around 1000 instead of enumerated
         n = rng.randint(1001, 2300)
+    if wide:
+        # loads heavy enough (text cells blown up to tens of kilobytes at
+        # run time) to outgrow the page cache of the database connection, so
+        # that uncommitted pages reach the file before the failure
+        n = rng.randint(150, 220)
     table = [hdr] + _gen_rows(rng, hdr, n)
+    if wide:
+        for r in table[1:]:
+            r[0] = 'w%d' % rng.randint(0, 9)
     other = [list(cols)] + _gen_rows(rng, cols, rng.randint(1, 3))
-    prior = _gen_rows(rng, cols, rng.choice([0, 1, 2, 3]))
+    prior = _gen_rows(rng, cols, rng.choice([0, 1, 2, 3]) if not wide
+                      else 60)
+    if wide:
+        for r in prior:
+            r[0] = 'p%d' % rng.randint(0, 9)
     all_combos = [(op, h, c) for op in ('todb', 'appenddb') for h in HANDLES
                   for c in (True, False)]
     if tier == 'thorough':
@@ -95,7 +108,7 @@ def gen_case(rng, tier, g):
     return {'prop': PROP, 'cols': cols, 'table': table, 'other': other,
             'prior': prior, 'combos': [list(c) for c in combos],
             'prefix': rng.choice(['none', 'none', 'uncommitted-then-commit',
-                                  'failed-then-rollback']),
+                                  'failed-then-rollback', 'pending-dml']),
             'pipeline': rng.random() < 0.3,
             'schema': rng.choice([None, None, 'main']),
             # exception classes the failing source raises, cycled over the
@@ -104,7 +117,7 @@ def gen_case(rng, tier, g):
             'exc_kinds': rng.sample(SOURCE_ERROR_KINDS,
                                     rng.choice([1, 2, 3])),
             'read_via': rng.choice(['conn', 'name', 'mkcurs', 'cursor']),
-            'attach': rng.random() < 0.3, 'big': big,
+            'attach': rng.random() < 0.3, 'big': big or wide, 'wide': wide,
             # where the rows come from: a simulated table, or another table
             # of the same database read with fromdb through the caller's own
             # connection (copying a table within one database)
@@ -173,10 +186,17 @@ def _load(e, op, src, dbo, commit):
         e.appenddb(src, dbo, 't', commit=commit, **kw)
 
 
-def _check(path, cols, model, what):
+def _check(path, cols, model, what, pending=False):
+    """`pending`: the caller's own transaction may still be open on another
+    connection; if it has grown past the page cache the database file is
+    locked until the caller commits or rolls back, which says nothing about
+    petl."""
     try:
         got = _fresh_read(path, cols)
     except sqlite3.OperationalError as ex:
+        if pending and 'locked' in str(ex):
+            devices.CTX.fire('reader-blocked-by-open-transaction')
+            return
         raise _Bad('fresh-connection-blocked',
                    '%s: a fresh connection cannot read the table: %s'
                    % (what, ex))
@@ -201,6 +221,11 @@ def _one(e, case, path, op, handle, commit, fault, log):
     prior = [tuple(r) for r in dec_table(case['prior'])]
     table = dec_table(case['table'])
     other = dec_table(case['other'])
+    if case.get('wide'):
+        def blow(r):
+            return [c * 12000 if isinstance(c, str) and c else c for c in r]
+        prior = [tuple(blow(r)) for r in prior]
+        table = [table[0]] + [blow(r) for r in table[1:]]
     attach = bool(case.get('attach')) and handle != 'name'
     tpath = path
     bystander = None
@@ -229,10 +254,16 @@ def _one(e, case, path, op, handle, commit, fault, log):
         if case['prefix'] == 'uncommitted-then-commit' and caller is not None:
             _safe_load(e, 'appenddb', other, _mk_dbo(handle, path, caller),
                        False, what + ' [prefix]')
-            _check(tpath, cols, model, what + ' [prefix: append commit=False]')
+            _check(tpath, cols, model, what + ' [prefix: append commit=False]',
+                   pending=True)
             caller.commit()
             model = model + _as_rows(cols, other)
             _check(tpath, cols, model, what + ' [prefix: caller commit]')
+        elif case['prefix'] == 'pending-dml' and caller is not None:
+            # the caller has work of its own pending on the connection when
+            # it hands it to petl
+            caller.execute('create table if not exists mine (x)')
+            caller.execute('insert into mine values (1)')
         elif case['prefix'] == 'failed-then-rollback':
             src0 = SimTable(other, mode='copy')
             src0.arm(len(other) - 1)
@@ -248,7 +279,8 @@ def _one(e, case, path, op, handle, commit, fault, log):
             except Exception as ex:
                 raise _Bad('unexpected-exception', '%s [prefix] raised %s: '
                            '%s' % (what, type(ex).__name__, ex))
-            _check(tpath, cols, model, what + ' [prefix: failed todb]')
+            _check(tpath, cols, model, what + ' [prefix: failed todb]',
+                   pending=caller is not None)
             if caller is not None:
                 caller.rollback()
         # ---- the load under test ---------------------------------------
@@ -314,7 +346,8 @@ def _one(e, case, path, op, handle, commit, fault, log):
             else model + _as_rows(cols, table)
         if raised is not None:
             # nothing is committed, whatever the commit flag
-            _check(tpath, cols, model, what + ' [after the failed call]')
+            _check(tpath, cols, model, what + ' [after the failed call]',
+                   pending=caller is not None)
             if caller is not None:
                 caller.rollback()
                 _check(tpath, cols, model, what + ' [after caller rollback]')
@@ -346,7 +379,8 @@ def _one(e, case, path, op, handle, commit, fault, log):
                            'expected %r' % (what, got,
                                             [tuple(cols)] + model))
         else:
-            _check(tpath, cols, model, what + ' [after the call, commit=False]')
+            _check(tpath, cols, model, what + ' [after the call, commit=False]',
+                   pending=caller is not None)
             if caller is not None:
                 caller.commit()
                 model = new
@@ -372,7 +406,11 @@ def run_case(case):
     log = Log()
     n = len(case['table']) - 1
     kinds = case.get('exc_kinds') or ['plain']
-    if case.get('big'):
+    if case.get('wide'):
+        idx = sorted(set([1, n // 2, n - 1, n, n + 1]))
+        faults = [None] + [['raise', i, kinds[j % len(kinds)]]
+                           for j, i in enumerate(idx)]
+    elif case.get('big'):
         idx = sorted(set([0, 1, 999, 1000, 1001, 1002, n // 2, n, n + 1]))
         faults = [None] + [['raise', i, kinds[j % len(kinds)]]
                            for j, i in enumerate(idx) if i <= n + 1] + \
